@@ -44,6 +44,7 @@ const (
 )
 
 type c13Asker struct {
+	ctor       byte // n New, g AskNewGenerics, o NewByOptions, p AskNewByOptionsGenerics, 0 = pick by index
 	kind       byte
 	rcap       int
 	pc         int
@@ -70,7 +71,12 @@ func c13ParseSpec(spec string, n int) []c13Asker {
 		as[i] = c13Asker{kind: 'O'}
 		if i < len(items) && len(items[i]) > 0 {
 			as[i].kind = items[i][0]
-			as[i].rcap, _ = strconv.Atoi(items[i][1:])
+			rest := items[i][1:]
+			if k := len(rest); k > 0 && (rest[k-1] < '0' || rest[k-1] > '9') {
+				as[i].ctor = rest[k-1]
+				rest = rest[:k-1]
+			}
+			as[i].rcap, _ = strconv.Atoi(rest)
 		}
 	}
 	return as
@@ -196,6 +202,8 @@ func (s *c13Sim) status() string {
 			b.WriteByte('V')
 		case c13RetT:
 			b.WriteByte('T')
+		case c13Sending:
+			b.WriteByte('s')
 		default:
 			b.WriteByte('w')
 		}
@@ -217,7 +225,27 @@ func (s *c13Sim) status() string {
 
 var c13Deviations int32
 
+// c13NewAskBy builds the request with the named constructor; o/p pass a caller-made channel of capacity rcap
+// (unbuffered for rcap 0), n/g use the library's own channel (only meaningful for rcap 0)
+func c13NewAskBy(p, rcap int, ctor byte) *fpgo.AskDef[int, int] {
+	var proto fpgo.AskDef[int, int]
+	switch {
+	case ctor == 'n' && rcap == 0:
+		return proto.New(p)
+	case ctor == 'g' && rcap == 0:
+		return fpgo.AskNewGenerics[int, int](p)
+	case ctor == 'o':
+		return proto.NewByOptions(p, make(chan int, rcap))
+	case ctor == 'p':
+		return fpgo.AskNewByOptionsGenerics[int, int](p, make(chan int, rcap))
+	}
+	return nil
+}
+
 func c13NewAsk(p, rcap int, variant int) *fpgo.AskDef[int, int] {
+	if rcap == 0 {
+		return c13NewAskBy(p, 0, "ngop"[variant%4])
+	}
 	var proto fpgo.AskDef[int, int]
 	switch {
 	case rcap == 0 && variant%2 == 0:
@@ -237,6 +265,22 @@ func c13NewActor(mcap int, effect func(*fpgo.ActorDef[interface{}], interface{})
 		return proto.New(effect)
 	}
 	return proto.NewByOptions(effect, make(chan interface{}, mcap), map[string]interface{}{})
+}
+
+// c13Target is the ActorHandle handed to the Ask* calls: it forwards to the real actor and records that the
+// Send of a request has returned (so "request is in the mailbox" is observable)
+type c13Target struct {
+	a    *fpgo.ActorDef[interface{}]
+	sent []int32
+}
+
+func (t *c13Target) Send(m interface{}) {
+	t.a.Send(m)
+	if ask, ok := m.(*fpgo.AskDef[int, int]); ok {
+		if i := (ask.Message - 100) / 13; i >= 0 && i < len(t.sent) {
+			atomic.StoreInt32(&t.sent[i], 1)
+		}
+	}
 }
 
 func c13RunAsk(line string) string {
@@ -285,7 +329,8 @@ func c13RunAsk(line string) string {
 		atomic.StoreInt32(&serving, -1)
 		atomic.StoreInt32(&phase, 0)
 	}
-	actor := c13NewActor(mcap, effect)
+	realActor := c13NewActor(mcap, effect)
+	actor := &c13Target{a: realActor, sent: make([]int32, n)}
 	ctl := NewCtl()
 	threads := make([]*Thread, n)
 	results := make([]string, n)
@@ -309,6 +354,9 @@ func c13RunAsk(line string) string {
 				return 'T'
 			}
 			return 'V'
+		}
+		if atomic.LoadInt32(&actor.sent[i]) == 0 {
+			return 's'
 		}
 		return 'w'
 	}
@@ -391,7 +439,10 @@ func c13RunAsk(line string) string {
 				if sp.kind == 'S' {
 					ctl.ParkAt(name, firedPoint)
 				}
-				ask := c13NewAsk(c13Payload(i), sp.rcap, i)
+				ask := c13NewAskBy(c13Payload(i), sp.rcap, sp.ctor)
+				if ask == nil {
+					ask = c13NewAsk(c13Payload(i), sp.rcap, i)
+				}
 				threads[i] = ctl.Go(name, func() {
 					switch sp.kind {
 					case 'O':
@@ -459,7 +510,7 @@ func c13RunAsk(line string) string {
 			t.Wait(time.Until(cleanupDeadline))
 		}
 	}
-	func() { defer func() { recover() }(); actor.Close() }()
+	func() { defer func() { recover() }(); realActor.Close() }()
 	return strings.Join(outs, " | ")
 }
 
@@ -647,8 +698,8 @@ func c13Gen(tier string, rng *rand.Rand, emit func(string)) map[string]interface
 	// (1) the three orders of reply and timeout (reply first; timeout, then reply; reply blocked, then timeout), for
 	//     every kind of ask and reply-channel capacity, followed by a fresh ask that must be served
 	for _, mcap := range []int{0, 1} {
-		for _, x := range []string{"O0", "O1", "C0", "C2", "T0", "T1", "S0", "S1"} {
-			for _, y := range []string{"O0", "C0", "T0"} {
+		for _, x := range []string{"O0n", "O0o", "O1p", "C0g", "C0p", "C2o", "T0n", "T0o", "T1p", "S0n", "S0g", "S0o", "S0p", "S1o", "S1p"} {
+			for _, y := range []string{"O0n", "C0p", "T0g", "O0o"} {
 				spec := x + "," + y
 				var scheds [][]string
 				if x[0] == 'S' {
@@ -661,7 +712,7 @@ func c13Gen(tier string, rng *rand.Rand, emit func(string)) map[string]interface
 					scheds = [][]string{{"a0", "r", "a1", "r"}, {"a0", "a1", "r", "r"}, {"a1", "a0", "r", "r"}}
 				}
 				for _, sc := range scheds {
-					if !thorough && rng.Intn(2) == 0 && x[0] != 'S' {
+					if !thorough && ((x[0] != 'S' && rng.Intn(3) != 0) || (x[0] == 'S' && rng.Intn(2) == 0)) {
 						continue
 					}
 					emit(c13Line(mcap, 2, spec, sc))
@@ -677,7 +728,7 @@ func c13Gen(tier string, rng *rand.Rand, emit func(string)) map[string]interface
 	if thorough {
 		nRand = 600
 	}
-	kinds := []string{"O0", "O1", "C0", "C1", "T0", "T2", "S0", "S0", "S1"}
+	kinds := []string{"O0n", "O0p", "O1o", "C0g", "C0o", "C1p", "T0n", "T0o", "T2p", "S0n", "S0g", "S0o", "S0p", "S1o"}
 	for r := 0; r < nRand; r++ {
 		n := 1 + rng.Intn(5)
 		mcap := []int{0, 0, 1, 3}[rng.Intn(4)]
